@@ -98,7 +98,7 @@ SpecGen == Init /\ [][NextGen]_vars
 
 \* ---- properties of the reference machine (C15 at design level) -------------------
 \* every list paragraph has the requested definition; counts agree with the parts; accessors agree with the body
-Inv_C15 == \A d \in 1..ND : InvDoc(st.docs[d], st.reqs[d]) = {}
+Inv_C15 == \A d \in 1..ND : InvDoc(st.docs[d], st.reqs[d], st.past[d]) = {}
 \* note ids are unique per part, across kinds nothing is shared
 Inv_Ids == \A d \in 1..ND : /\ Cardinality(Ids(st.docs[d].fn)) = Len(st.docs[d].fn)
                             /\ Cardinality(Ids(st.docs[d].en)) = Len(st.docs[d].en)
